@@ -99,7 +99,7 @@ class State(object):
       (a if c.get_id() in self.ax else g).append(c)
     return g, a
 
-  def harr(self, key, sort, is_ref=False):
+  def harr(self, key, sort, is_ref=False, owned=False):
     """Heap array for field key; created unconstrained (arbitrary pre-state) on first use.
 
     Pre-state reference fields only hold pre-existing objects (refs in 0..ALLOC_BASE-1): objects allocated during the
@@ -113,6 +113,14 @@ class State(object):
       r = z3.Int('h0r')
       if is_ref and sort == z3.IntSort():
         self.axiom(z3.ForAll([r], z3.And(z3.Select(a, r) >= 0, z3.Select(a, r) < ALLOC_BASE)))
+        if owned:
+          # separation: an owned container belongs to exactly one (object, field) slot
+          ctag = z3.Function('container_tag', z3.IntSort(), z3.IntSort())
+          cown = z3.Function('container_owner', z3.IntSort(), z3.IntSort())
+          import zlib
+          tag = zlib.crc32(('%s.%s' % key).encode()) % 1000003 + 1
+          self.axiom(z3.ForAll([r], z3.Implies(z3.Select(a, r) != 0,
+                                               z3.And(ctag(z3.Select(a, r)) == tag, cown(z3.Select(a, r)) == r))))
         if key == ('dict', 'keys'):
           # the hidden key list of a dict is owned by that dict alone (inverse function owner)
           owner = z3.Function('keylist_owner', z3.IntSort(), z3.IntSort())
